@@ -113,6 +113,14 @@ impl TimeScale {
             Repeat::Times(times) if time > self.duration * Self::cycle_count(times) => {
                 return self.position_ended();
             }
+            // Exactly at the end of the last cycle. The total above is a rounded product, so the
+            // remainder computed below is not necessarily zero at this instant; it would wrap
+            // around into the beginning of a further cycle that is never played.
+            Repeat::Times(times)
+                if times > 0 && time == self.duration * Self::cycle_count(times) =>
+            {
+                (self.duration, true)
+            }
             Repeat::Times(_) | Repeat::Infinite => {
                 // Doing the "simple" modulo arithmetic can produce some unintuitive results, since
                 // the normalized remainder can never be equal to 1.0 at the end of a cycle, it will
